@@ -121,6 +121,83 @@ def oracle(ctx, rng, n):
             ctx.count("builtin_tables_evaluated")
 
 
+UNITY = "Subfactor,Type,Coolant,Film,Cladding\nPower,Direct,1,1,1\nFlow,Direct,1.0,1,1\nProperties,Statistical,1,1,1\nFilm HTC,Statistical,1,1.0,1\n"
+SKEWED = "Subfactor,Type,Coolant,Film,Cladding\nPower,Direct,1.05,1.02,1.02\nFlow,Direct,1.03,1,1\nProperties,Statistical,1.02,1.1,1.05\nFilm HTC,Statistical,1,1.12,1\n"
+_IDX = {'clad_od': 5, 'clad_mw': 6, 'clad_id': 7, 'fuel_od': 8, 'fuel_cl': 9}
+
+
+def oracle_analyze(ctx, rng, n):
+    """end to end through hotspot.analyze on real swept reactors: several assembly types request a hot spot, their assemblies
+    interleave in the core numbering; every assembly's reported hot-spot must be computed from ITS OWN nominal peak (unity table:
+    equal to it; other tables: equal to calculate_temps of its own increments)"""
+    import shutil
+    from dassh import hotspot
+    from harness import gen_input as gi
+    fuel = dict(gap_thickness=0.0, clad_material='ht9', r_frac=[0.0, 0.33333, 0.66667], pu_frac=[0.2, 0.2, 0.2],
+                zr_frac=[0.1, 0.1, 0.1], porosity=[0.25, 0.25, 0.25])
+    for ci in range(n):
+        d = str(ctx.work / ("hs%d" % ci))
+        os.makedirs(d, exist_ok=True)
+        table = UNITY if ci % 2 == 0 else SKEWED
+        path = os.path.join(d, "hcf_user.csv")
+        open(path, "w").write(table)
+        pos = [(1, 1)] + [p for p in gi.core_positions(2)[1:] if rng.random() < 0.8]
+        n_types = rng.choice([2, 2, 3])
+        case = gi.random_case(rng, positions=pos, n_types=n_types, gap_model=rng.choice(['none', 'flow']), length=0.1, flow_range=(1.0, 5.0),
+                              type_kw=dict(n_duct=1))
+        names = list(case['types'])
+        rng.shuffle(names)                         # the type listed first need not own the lowest assembly numbers
+        case['types'] = {k: case['types'][k] for k in names}
+        for i, a in enumerate(case['assignment']):
+            a['type'] = names[i % n_types] if rng.random() < 0.8 else rng.choice(names)
+        where = rng.choice(['clad_od', 'clad_mw'])
+        for tn in names:
+            case['types'][tn]['FuelModel'] = dict(fuel)
+            case['types'][tn]['Hotspot'] = {'hs': dict(temperature=where, input_sigma=3, output_sigma=2, subfactors=path)}
+        gi.random_power(rng, case)
+        try:
+            inp, r = gi.build_reactor(case, d)
+            gi.sweep(r)
+        except SystemExit:
+            ctx.count("analyze_case_rejected")
+            shutil.rmtree(d, ignore_errors=True)
+            continue
+        ctx.evals += 1
+        out = hotspot.analyze(r)
+        if out is None or where not in out[0]:
+            ctx.violation("c19-analyze-missing", "hotspot.analyze returns nothing for the requested location %s" % where, case=case)
+            shutil.rmtree(d, ignore_errors=True)
+            continue
+        temps, ids = out
+        ids = list(ids[where])
+        for a in r.assemblies:
+            own = np.array([r.inlet_temp] + list(a._peak['pin'][where][2][3:_IDX[where]]), dtype=float)
+            dT = (own[1:] - own[:-1])[None, :]
+            if a.id not in ids:
+                ctx.violation("c19-analyze-missing", "assembly %d requested a hot spot but is not in the result" % a.id, case=case)
+                break
+            got = np.asarray(temps[where][ids.index(a.id)], dtype=float)
+            if table is UNITY:
+                want = own[1:]
+            else:
+                subf, expr = hotspot._read_hcf_table(path, hotspot._COLS_NEEDED[where])
+                sf = hotspot._evaluate_hcf_expr(subf, expr, dT)
+                for typ in sf:
+                    sf[typ] = sf[typ][:, :, :dT.shape[1]]
+                want = hotspot.calculate_temps(r.inlet_temp, dT, sf, 3, 2)[0]
+            ctx.count("analyze_assemblies_checked")
+            if np.abs(got - want).max() > 1e-8:
+                ctx.violation("c19-analyze-wrong-assembly" if table is not UNITY else "c19-analyze-unity",
+                              "assembly %d (%s): hot-spot %s reported by hotspot.analyze is %s but the %s from its own nominal peak "
+                              "temperatures %s is %s" % (a.id, a.name, where, got.tolist(), "value" if table is not UNITY else
+                                                         "unity-table value", own[1:].tolist(), want.tolist()),
+                              case=case, table=table, ids=ids, names=[b.name for b in r.assemblies])
+                break
+        if ci < 2:
+            ctx.sample(dict(kind="analyze", positions=pos, types=[a.name for a in r.assemblies], where=where, unity=table is UNITY))
+        shutil.rmtree(d, ignore_errors=True)
+
+
 def run(ctx):
     rng = random.Random(19000 + ctx.seed)
     ctx.rule = ("oracle: random subfactor tables (1-4 assemblies, 1/3/5 terms, 1-6 rows), sigma levels 0-4; all built-in tables x "
@@ -135,6 +212,7 @@ def run(ctx):
     if ok:
         ctx.prove("Dassh.Props.C19")
     oracle(ctx, rng, 400 if ctx.thorough else 80)
+    oracle_analyze(ctx, rng, 12 if ctx.thorough else 4)
     ctx.nontrivial = ctx.evals
     ctx.traces = ctx.evals
     ctx.trusted += ["T1 trace of hotspot.calculate_temps at a fixed small shape (2+2 subfactor rows, 3 terms); other shapes are "
